@@ -8,7 +8,8 @@ CONSTANTS
   Preamble = TRUE
   MaxConf = 1
   Buf = 0
-  Fixes = {"D1", "D14", "D2", "D18", "D19", "D20", "D21"}
+  Fixes = {"D1", "D14", "D2", "D18", "D19", "D20", "D21", "D23"}
+  ColorOnly = FALSE
 VIEW View
 ACTION_CONSTRAINT Edge
 CHECK_DEADLOCK FALSE
